@@ -43,6 +43,10 @@ pub enum Event {
 
     /// A round of unification has completed.
     Round { type_vars: usize, progress: bool },
+
+    /// A value built at `ip` had `nodes` nodes, more than the size `limit`, and was replaced by
+    /// the opaque value with identity `id`.
+    Culled { ip: u32, id: String, nodes: usize, limit: usize },
 }
 
 /// The receiver of hook events.
